@@ -3,6 +3,7 @@ package c03
 import (
 	"fmt"
 	"slices"
+	"strings"
 
 	"verifharness/internal/core"
 )
@@ -547,7 +548,26 @@ func (g *genState) heavyScript(tier string) {
 	}
 }
 
+// gen adds the forced tower heights of the inner skip list (header token
+// `heights=<kind>:<seed>`) to a share of the cases of the streams with several buckets.
 func gen(r *core.Rand, tier string) core.Case {
+	c := genBody(r, tier)
+	share := 0
+	switch {
+	case strings.Contains(c.Tag, "many-buckets"):
+		share = 60
+	case strings.Contains(c.Tag, "multi"), strings.Contains(c.Tag, "handles"), strings.Contains(c.Tag, "magnitude"):
+		share = 30
+	}
+	if towerHooks && r.Chance(share) {
+		kind := heightKinds[1+r.Pick(5, 2, 3)] // tall, flat, alt
+		c.Lines[0] = fmt.Sprintf("@ C03 rb heights=%s:%d", kind, r.Intn(1000000))
+		c.Tag += "-heights"
+	}
+	return c
+}
+
+func genBody(r *core.Rand, tier string) core.Case {
 	g := &genState{r: r, s: newRef(), hist: map[uint32][]bulkArgs{}, lines: []string{"@ C03 rb"}}
 	if share := map[bool]int{false: 9, true: 13}[tier == "thorough"]; r.Chance(share) {
 		g.handlesScript(tier == "thorough")
